@@ -49,3 +49,33 @@ def pick(seq, seed, k):
     if len(seq) <= k:
         return seq
     return rnd.sample(seq, k)
+
+
+def ldpc_classes(cfg):
+    """Received sets of an LDPC configuration classified with the reference model: 'it' (peeling recovers all),
+    'ml-ok' (of_finish_decoding must succeed, Gaussian elimination needed), 'ml-fail'."""
+    k, r, n1, sd = cfg
+    n = k + r
+    out = {"it": [], "ml-ok": [], "ml-fail": []}
+    for pat in all_patterns(n):
+        e = ldpc_expect(k, r, n1, sd, pat)
+        if e["pre_mask"] == (1 << k) - 1:
+            out["it"].append(pat)
+        elif e["ml_ok"]:
+            out["ml-ok"].append(pat)
+        else:
+            out["ml-fail"].append(pat)
+    return out
+
+
+def ldpc_it_chain_patterns(cfg, min_decoded=2):
+    """Received sets for which streaming (peeling) decoding rebuilds at least `min_decoded` source symbols:
+    one rebuilt symbol feeds the next equation (recursion of the iterative decoder)."""
+    k, r, n1, sd = cfg
+    out = []
+    for pat in all_patterns(k + r):
+        e = ldpc_expect(k, r, n1, sd, pat)
+        got = [c for c in e["closure"] if c < k and c not in pat]
+        if len(got) >= min_decoded:
+            out.append(pat)
+    return out
